@@ -11,27 +11,42 @@ namespace Anytree
 namespace CaseFold
 open Str
 
-/-- `str.upper()` and `re.IGNORECASE` induce the same equivalence on the characters satisfying `P` -/
+/-- `str.upper()` and `re.IGNORECASE` induce the same equivalence on the characters satisfying `P`:
+their upper case is one character long, and two of them have the same upper case iff they fold to
+the same character under `re.IGNORECASE` -/
 def CaseRegular (P : Char → Prop) : Prop :=
+  (∀ x, P x → upperStr x = [upperChar x]) ∧
   ∀ x y, P x → P y → (reKey x = reKey y ↔ upperChar x = upperChar y)
 
 theorem CaseRegular.mono {P Q : Char → Prop} (h : CaseRegular Q) (hpq : ∀ x, P x → Q x) :
-    CaseRegular P := fun x y hx hy => h x y (hpq x hx) (hpq y hy)
+    CaseRegular P :=
+  ⟨fun x hx => h.1 x (hpq x hx), fun x y hx hy => h.2 x y (hpq x hx) (hpq y hy)⟩
 
-/-- on strings over such characters: equal under `reKey` character by character iff equal under
-`upperChar` character by character -/
-theorem map_agree {P : Char → Prop} (hP : CaseRegular P) : ∀ (l1 l2 : List Char),
-    (∀ x ∈ l1, P x) → (∀ x ∈ l2, P x) →
-    (l1.map reKey = l2.map reKey ↔ l1.map upperChar = l2.map upperChar) := by
-  intro l1
-  induction l1 with
-  | nil => intro l2 _ _; cases l2 <;> simp
+/-- over such characters `str.upper()` works character by character -/
+theorem flatMap_upperStr {P : Char → Prop} (hP : CaseRegular P) : ∀ (l : List Char),
+    (∀ x ∈ l, P x) → l.flatMap upperStr = l.map upperChar := by
+  intro l
+  induction l with
+  | nil => intro _; rfl
   | cons a as ih =>
-    intro l2 h1 h2
+    intro h
+    rw [List.flatMap_cons, List.map_cons, hP.1 a (h a (List.mem_cons_self ..)),
+      ih (fun x hx => h x (List.mem_cons_of_mem _ hx))]
+    rfl
+
+/-- on strings over such characters: equal under `reKey` character by character iff the upper-cased
+strings are equal -/
+theorem map_agree {P : Char → Prop} (hP : CaseRegular P) (l1 l2 : List Char)
+    (h1 : ∀ x ∈ l1, P x) (h2 : ∀ x ∈ l2, P x) :
+    (l1.map reKey = l2.map reKey ↔ l1.flatMap upperStr = l2.flatMap upperStr) := by
+  rw [flatMap_upperStr hP l1 h1, flatMap_upperStr hP l2 h2]
+  induction l1 generalizing l2 with
+  | nil => cases l2 <;> simp
+  | cons a as ih =>
     cases l2 with
     | nil => simp
     | cons b bs =>
-      have hab := hP a b (h1 a (List.mem_cons_self ..)) (h2 b (List.mem_cons_self ..))
+      have hab := hP.2 a b (h1 a (List.mem_cons_self ..)) (h2 b (List.mem_cons_self ..))
       have ih' := ih bs (fun x hx => h1 x (List.mem_cons_of_mem _ hx))
         (fun x hx => h2 x (List.mem_cons_of_mem _ hx))
       simp only [List.map_cons, List.cons.injEq]
@@ -49,15 +64,18 @@ def regularAlphabet : List Char :=
   asciiChars ++ ['\u017f', '\u0131', '\u00b5', '\u03bc', '\u039c', '\u00e5', '\u00c5', '\u00e9', '\u00c9', '\u03c9', '\u03a9']
 
 /-- the whole alphabet of the model -/
-def alphabet : List Char := regularAlphabet ++ ['K', 'Å', 'Ω']
+def alphabet : List Char :=
+  regularAlphabet ++ ['\u212a', '\u212b', '\u2126', '\u00df', '\u1e9e', '\ufb01']
 
 theorem regularAlphabet_agree : ∀ x ∈ regularAlphabet, ∀ y ∈ regularAlphabet,
     (reKey x = reKey y ↔ upperChar x = upperChar y) := by decide +kernel
 
+theorem regularAlphabet_single : ∀ x ∈ regularAlphabet, upperStr x = [upperChar x] := by decide +kernel
+
 /-- **`str.upper()` and `re.IGNORECASE` agree on the regular alphabet** (a finite table, checked
 entry by entry by the kernel) -/
 theorem caseRegular_regularAlphabet : CaseRegular (· ∈ regularAlphabet) :=
-  fun x y hx hy => regularAlphabet_agree x hx y hy
+  ⟨regularAlphabet_single, fun x y hx hy => regularAlphabet_agree x hx y hy⟩
 
 /-- … in particular on ASCII -/
 theorem caseRegular_ascii : CaseRegular (fun c => c.toNat < 128) :=
@@ -74,14 +92,24 @@ theorem signs_irregular :
 /-- so the whole alphabet is not regular -/
 theorem not_caseRegular_alphabet : ¬ CaseRegular (· ∈ alphabet) := by
   intro h
-  have := h 'K' 'k' (by decide) (by decide)
+  have := h.2 '\u212a' 'k' (by decide) (by decide)
   exact signs_irregular.1.2 (this.mp signs_irregular.1.1)
+
+/-- `ß` and `ﬁ` have a two-character upper case (`SS`, `FI`): under `str.upper()` the strings `ß` and
+`ss` are equal, under `re.IGNORECASE` `ß` matches only `ß` and `ẞ` -/
+theorem sharp_s_irregular :
+    upperStr '\u00df' = ['S', 'S'] ∧ upperStr '\ufb01' = ['F', 'I'] ∧
+    reKey '\u1e9e' = reKey '\u00df' ∧ upperStr '\u1e9e' ≠ upperStr '\u00df' ∧
+    reKey '\u00df' ≠ reKey 's' := by decide
 
 /-- `re.IGNORECASE` is an equivalence relation in the model (it is equality of `reKey`); `upper`
 equality likewise.  Both refine to plain equality on characters outside ASCII letters and the table. -/
 theorem reKey_idem : ∀ x ∈ alphabet, reKey (reKey x) = reKey x := by decide +kernel
 
 theorem upperChar_idem : ∀ x ∈ alphabet, upperChar (upperChar x) = upperChar x := by decide +kernel
+
+/-- upper-casing twice changes nothing more (also for the two-character cases) -/
+theorem upperStr_idem : ∀ x ∈ alphabet, (upperStr x).flatMap upperStr = upperStr x := by decide +kernel
 
 end CaseFold
 end Anytree
